@@ -73,7 +73,7 @@ fn main() {
         std::process::exit(r.finish());
     }
 
-    let n = args.get_u64("histories", args.n(2_000, 60_000));
+    let n = args.get_u64("histories", args.n(3_000, 200_000));
     par_cases(&mut r, &args, n, run_case);
     r.set("distinct_batch_partitions", json!(partitions_seen()));
     std::process::exit(r.finish());
